@@ -95,7 +95,7 @@ impl idlc_codegen::functions::ParameterVisitor for Signature {
 
     fn visit_input_object_array(&mut self, ident: &Ident, ty: Option<&str>, cnt: idlc_mir::Count) {
         let name = format!("(&{}_ref)[{cnt}]", ident);
-        let ty = format!("{CONST} {}", ty.unwrap_or("Object"));
+        let ty = format!("{CONST} {}", ty.unwrap_or("ProxyBase"));
         self.inputs.push((name, ty));
         self.input_obj_arg.push(format!("{}_len", ident));
         self.outputs
@@ -202,7 +202,7 @@ impl idlc_codegen::functions::ParameterVisitor for Signature {
 
     fn visit_output_object_array(&mut self, ident: &Ident, ty: Option<&str>, cnt: idlc_mir::Count) {
         let name = format!("(&{}_ref)[{cnt}]", ident);
-        let ty = ty.unwrap_or("Object").to_string();
+        let ty = ty.unwrap_or("ProxyBase").to_string();
         self.inputs.push((name, ty));
         self.output_obj_arg.push(format!("{}_len", ident));
         self.outputs
